@@ -6,7 +6,7 @@
      - every derived field of every layer is right    lengths, header lengths, checksums, FCS, markers (Stack2, `ok`)
      - Ethernet frames are zero-padded to the minimum *)
 EXTENDS TraceIO, Stack2
-CONSTANT Prop      \* "C12": a clone serialises like its source;  "C05": derived fields;  "C02": serialization is total, size-exact and layers never overwrite each other
+CONSTANT Prop      \* "C04": the parsed serialization has the same layers and bytes;  "C12": a clone serialises like its source;  "C05": derived fields;  "C02": serialization is total, size-exact and layers never overwrite each other
 VARIABLE dummy
 vars == <<ex, l, dummy>>
 Init == \E s \in Starts : TraceInit(s) /\ dummy = 0
@@ -21,9 +21,11 @@ C02Cat(e) == /\ e.thrown = ""                                  \* "serialize() s
              /\ e.size = SumSizes(e.hs)                         \*  size() being the sum of all layers' header and trailer sizes"
              /\ e.overwrite = << >>                             \* "each layer writes only inside its own header and trailer regions"
              /\ e.again_same                                    \* (and doing it again gives the same bytes)
+\* "Parsing the packet's serialization with libtins yields the same layers, field values, options ... and payload"
+C04Cat(e) == e.thrown = "" /\ e.rt_thrown = "" /\ e.rt_types /\ e.rt_bytes
 C12Cat(e) == e.thrown = "" /\ e.clone_same /\ e.rebuild_same                    \* "A copy or clone is ... equal to its source ... same ... serialization"
 Cat == /\ IsEvent("cat")
-       /\ (IF Prop = "C02" THEN C02Cat(Ev) ELSE IF Prop = "C12" THEN C12Cat(Ev) ELSE C05Cat(Ev))
+       /\ (IF Prop = "C02" THEN C02Cat(Ev) ELSE IF Prop = "C12" THEN C12Cat(Ev) ELSE IF Prop = "C04" THEN C04Cat(Ev) ELSE C05Cat(Ev))
        /\ UNCHANGED dummy
 Next == Cat
 Spec == Init /\ [][Next]_vars
